@@ -16,6 +16,13 @@ Preds(e) ==
    P("C18", "Not65535", ids /\ Assigned(e) # {}, \A i \in Assigned(e) : e.chans[i].id # 65535),
    P("C18", "UniqueAssigned", ids /\ Assigned(e) # {},
         \A i \in Assigned(e) : \A j \in 1..Len(e.chans) : (j # i /\ e.chans[j].id >= 0) => e.chans[j].id # e.chans[i].id),
+   \* ids handed out by the allocator to concurrent callers (no channel attached): pairwise different,
+   \* different from every channel's id, of the role's parity
+   P("C18", "UniqueAlloc", ids /\ Len(e.alloc) > 0,
+        /\ Cardinality({e.alloc[i] : i \in 1..Len(e.alloc)}) = Len(e.alloc)
+        /\ \A i \in 1..Len(e.alloc) : \A j \in 1..Len(e.chans) : e.chans[j].id # e.alloc[i]),
+   P("C18", "ParityAlloc", ids /\ Len(e.alloc) > 0 /\ e.role \in {"client", "server"},
+        \A i \in 1..Len(e.alloc) : e.alloc[i] % 2 = (IF e.role = "client" THEN 0 ELSE 1) /\ e.alloc[i] # 65535),
    P("C18", "IdStable", ids,
         \A i \in 1..Len(e.chans) : \A x \in seen : (x[1] = e.who /\ x[2] = e.chans[i].k) => x[3] = e.chans[i].id)
   }
